@@ -1,6 +1,9 @@
 package main
 
 import (
+	"bufio"
+	"bytes"
+	"strings"
 	"errors"
 	"fmt"
 	"io"
@@ -69,6 +72,10 @@ type SimReader struct {
 	pending     error // ReadByte got its byte together with the terminal condition: reported by the next call
 	Scribbled   int   // reads after which the unused part of p was overwritten
 	Reads       int
+
+	stdBuf   *bytes.Buffer // Std == "bytes.Buffer"
+	stdSlice []byte        // Std == "bytes.Reader": the caller's slice under the reader
+	Reused   bool          // the caller reused the reader's storage after the parse
 }
 
 func newSimReader(doc []byte, scn *ReaderScn, seq *int) *SimReader {
@@ -234,10 +241,44 @@ func (r richReader) WriteTo(w io.Writer) (int64, error) {
 
 // asReader returns the value handed to NewBlockParser.
 func (r *SimReader) asReader() io.Reader {
+	switch r.scn.Std {
+	case "bytes.Buffer":
+		r.stdBuf = bytes.NewBuffer(append(make([]byte, 0, r.limit+r.limit%97), r.doc[:r.limit]...))
+		r.pos = r.limit // handed over as a whole
+		return r.stdBuf
+	case "bytes.Reader":
+		r.stdSlice = append([]byte(nil), r.doc[:r.limit]...)
+		r.pos = r.limit
+		return bytes.NewReader(r.stdSlice)
+	case "strings.Reader":
+		r.pos = r.limit
+		return strings.NewReader(string(r.doc[:r.limit]))
+	case "bufio.Reader":
+		var inner io.Reader = r
+		if r.scn.Rich {
+			inner = richReader{r}
+		}
+		return bufio.NewReaderSize(inner, 16+(len(r.doc)*7)%5000)
+	}
 	if r.scn.Rich {
 		return richReader{r}
 	}
 	return r
+}
+
+// reuse: the parse is over; the caller does what it likes with what it owns.
+func (r *SimReader) reuse() {
+	switch {
+	case r.stdBuf != nil:
+		r.stdBuf.Reset()
+		r.stdBuf.Write(bytes.Repeat([]byte{0xAA}, r.stdBuf.Cap()))
+		r.Reused = true
+	case r.stdSlice != nil:
+		for i := range r.stdSlice {
+			r.stdSlice[i] = 0xAA
+		}
+		r.Reused = true
+	}
 }
 
 func (r *SimReader) histString() string {
